@@ -133,6 +133,19 @@ class _:
                 raise Fail(f"ttv:{name}:raises:{how}", f"{type(e).__name__}: {e} for {case}")
             if not _close(_dense(ttb, got), exp):
                 raise Fail(f"ttv:{name}:{how}", f"{case}: got {np.asarray(_dense(ttb, got)).tolist()} expected {exp.tolist()}")
+        # multiplicands that are not 1-D (an (n, 1) column as sliced out of a factor matrix, an (n, 2) matrix): either refused
+        # or -- for the column, which has the right number of entries -- answered with the product for its n entries
+        if how != "all" or True:
+            for form in ("column", "matrix"):
+                vl = [(v.reshape(-1, 1).copy() if form == "column" else np.stack([v, v], axis=1)) for v in vlist]
+                for name, (obj, X) in _holders(ttb, shp, rs).items():
+                    exp = np.einsum(expr, X, *[vecs[m] for m in modes])
+                    try:
+                        got = obj.ttv(vl, **kw)
+                    except Exception:
+                        continue
+                    if form == "matrix" or not _close(_dense(ttb, got), exp):
+                        raise Fail(f"ttv:{name}:non-1-D-multiplicand-answered-wrongly:{form}", f"{case}")
         # ttm: matrices J_m x I_m (plain) or I_m x J_m (transpose flag)
         mats = [rs.randint(-2, 3, size=(2, d)).astype(float) for d in shp]
         for transpose in (False, True):
@@ -202,6 +215,19 @@ class _:
         for n in range(N):
             if not _close(allm[n], T.mttkrp([f.copy() for f in F], n)):
                 raise Fail("mttkrps-vs-mttkrp", f"{case} n={n}")
+        # ranks beyond any block size an implementation might use for the components (not a multiple of 8 / 16)
+        for Rh in (9, 10, 17):
+            Fh = [rs.randint(-2, 3, size=(d, Rh)).astype(float) for d in shp]
+            allh = T.mttkrps([f.copy() for f in Fh])
+            for n in range(N):
+                others = [m for m in range(N) if m != n]
+                expr = LETTERS[:N] + "," + ",".join(LETTERS[m] + "z" for m in others) + "->" + LETTERS[n] + "z"
+                exp = np.einsum(expr, X, *[Fh[m] for m in others])
+                if not _close(allh[n], exp):
+                    raise Fail("mttkrps:high-rank", f"{case} n={n} R={Rh}")
+                for name in ("tensor", "sptensor", "ktensor"):
+                    if not _close(hold[name][0].mttkrp([f.copy() for f in Fh], n), np.einsum(expr, hold[name][1], *[Fh[m] for m in others])):
+                        raise Fail(f"mttkrp:{name}:high-rank", f"{case} n={n} R={Rh}")
         names = list(hold)
         for a in names:
             A, XA = hold[a]
@@ -448,3 +474,53 @@ class _:
                 raise Fail("ttm", f"{case} n={n}")
             if dt.kind != "b" and not close(_dense(ttb, T.collapse(np.array([n]))), X.sum(axis=n)):
                 raise Fail("collapse", f"{case} n={n}")
+
+
+@check("c02.large_dense", ["C02", "C10", "C09", "C14"], [
+    "pyttb.tensor.tensor.ttm", "pyttb.tensor.tensor.ttv", "pyttb.tensor.tensor.mttkrp", "pyttb.tensor.tensor.norm",
+    "pyttb.tensor.tensor.innerprod", "pyttb.tensor.tensor.collapse", "pyttb.tensor.tensor.nvecs"])
+class _:
+    """The dense kernels on tensors that are large in one or all modes (unfoldings with tens of thousands of columns, not
+    a multiple of any power of two), against einsum: sizes at which blocked / chunked implementations behave differently."""
+
+    def cases(self, tier, rng):
+        for shp in ((40, 180, 190), (3, 70001), (33000, 5, 7), (17, 19, 23, 29)):
+            yield dict(shape=list(shp), seed=rng.randrange(10**6))
+
+    def run(self, case):
+        ttb = import_pyttb()
+        shp = tuple(case["shape"])
+        N = len(shp)
+        rs = np.random.RandomState(case["seed"])
+        X = rs.randint(-3, 4, size=shp).astype(float)
+        T = ttb.tensor(X.copy())
+
+        def close(a, b, tol=1e-9):
+            a, b = np.asarray(a, dtype=float), np.asarray(b, dtype=float)
+            return a.shape == b.shape and bool(np.all(np.abs(a - b) <= tol * max(1.0, float(np.max(np.abs(b))))))
+        if not close(T.norm(), np.sqrt((X ** 2).sum())) or not close(T.innerprod(T), (X * X).sum()):
+            raise Fail("norm-or-innerprod", f"{case}")
+        F = [rs.randint(-2, 3, size=(d, 2)).astype(float) for d in shp]
+        for n in range(N):
+            M = rs.randint(-2, 3, size=(3, shp[n])).astype(float)
+            exp = np.moveaxis(np.tensordot(M, X, axes=(1, n)), 0, n)
+            if not close(T.ttm(M.copy(), n).data, exp):
+                raise Fail("ttm", f"{case} n={n}")
+            if not close(T.ttm(M.T.copy(), n, transpose=True).data, exp):
+                raise Fail("ttm-transpose", f"{case} n={n}")
+            v = rs.randint(-2, 3, size=shp[n]).astype(float)
+            if not close(_dense(ttb, T.ttv(v.copy(), n)), np.tensordot(X, v, axes=(n, 0))):
+                raise Fail("ttv", f"{case} n={n}")
+            others = [m for m in range(N) if m != n]
+            expr = LETTERS[:N] + "," + ",".join(LETTERS[m] + "z" for m in others) + "->" + LETTERS[n] + "z"
+            if not close(T.mttkrp([f.copy() for f in F], n), np.einsum(expr, X, *[F[m] for m in others])):
+                raise Fail("mttkrp", f"{case} n={n}")
+            if not close(_dense(ttb, T.collapse(np.array([n]))), X.sum(axis=n)):
+                raise Fail("collapse", f"{case} n={n}")
+        # all but one mode at once (the projection step of the Tucker algorithms)
+        mats = [rs.randint(-2, 3, size=(2, d)).astype(float) for d in shp]
+        exp = X
+        for m in range(1, N):
+            exp = np.moveaxis(np.tensordot(mats[m], exp, axes=(1, m)), 0, m)
+        if not close(T.ttm([m_.copy() for m_ in mats], exclude_dims=np.array([0])).data, exp):
+            raise Fail("ttm-all-but-one", f"{case}")
